@@ -337,11 +337,18 @@ class Crazyflie():
             for timer in list(pending.values()):
                 timer.cancel()
 
-    def _no_answer_do_retry(self, pk, pattern, timeout=0.2):
+    def _no_answer_do_retry(self, pk, pattern, timeout=0.2, expired_timer=None):
         """Resend packets that we have not gotten answers to"""
         logger.info('Resending for pattern %s', pattern)
         # Set the timer to None before trying to send again
-        self.send_packet(pk, expected_reply=pattern, resend=True, timeout=timeout)
+        self.send_packet(pk, expected_reply=pattern, resend=True, timeout=timeout, _expired_timer=expired_timer)
+
+    def _new_retry_timer(self, pk, pattern, timeout):
+        """Timer that retries pk, and knows which timer it is when it expires"""
+        holder = []
+        timer = Timer(timeout, lambda: self._no_answer_do_retry(pk, pattern, timeout, holder[0]))
+        holder.append(timer)
+        return timer
 
     def _check_for_answers(self, pk):
         """
@@ -368,7 +375,7 @@ class Crazyflie():
                 if timer is not None:
                     timer.cancel()
 
-    def send_packet(self, pk, expected_reply=(), resend=False, timeout=0.2):
+    def send_packet(self, pk, expected_reply=(), resend=False, timeout=0.2, _expired_timer=None):
         """
         Send a packet through the link interface.
 
@@ -393,10 +400,7 @@ class Crazyflie():
                     logger.debug(
                         'Sending packet and expecting the %s pattern back',
                         pattern)
-                    new_timer = Timer(timeout,
-                                      lambda: self._no_answer_do_retry(pk,
-                                                                       pattern,
-                                                                       timeout))
+                    new_timer = self._new_retry_timer(pk, pattern, timeout)
                     with self._answer_patterns_lock:
                         self._answer_patterns[pattern] = new_timer
                         new_timer.start()
@@ -415,13 +419,15 @@ class Crazyflie():
                     # The incoming thread removes the pattern when the answer arrives: test and
                     # re-arm in one step, or an answered request would be retried again
                     with self._answer_patterns_lock:
-                        still_pending = pattern in self._answer_patterns
+                        if _expired_timer is not None:
+                            # The pattern may be registered again by now, by a later request that expects the
+                            # same answer: only the request whose own timer expired is retried
+                            still_pending = self._answer_patterns.get(pattern) is _expired_timer
+                        else:
+                            still_pending = pattern in self._answer_patterns
                         if still_pending:
                             logger.debug('We want to resend and the pattern is there')
-                            new_timer = Timer(timeout,
-                                              lambda:
-                                              self._no_answer_do_retry(
-                                                  pk, pattern, timeout))
+                            new_timer = self._new_retry_timer(pk, pattern, timeout)
                             self._answer_patterns[pattern] = new_timer
                             new_timer.start()
                     if not still_pending:
